@@ -25,7 +25,11 @@ from .models import (
     WSMsgType,
 )
 
-ALLOWED_CLOSE_CODES: Final[set[int]] = {int(i) for i in WSCloseCode}
+# 1006 is reserved for local use and must never appear in a Close frame
+# (RFC 6455, section 7.4.1), like 1005 and 1015 which are not defined here.
+ALLOWED_CLOSE_CODES: Final[set[int]] = {
+    int(i) for i in WSCloseCode if i is not WSCloseCode.ABNORMAL_CLOSURE
+}
 
 # States for the reader, used to parse the WebSocket frame
 # integer values are used so they can be cythonized
